@@ -1,4 +1,152 @@
-From Coq Require Import List String.
-From SFC.Block Require Import Classify.
-Example placeholder : True. Proof. exact I. Qed.
-Print Assumptions placeholder.
+(** C14 — Equation text is classified faithfully; comments are inert.
+    Property theorems only; model in Classify.v (EquationParser.ParseString after fix D14, and
+    [parse_block_orig] before it), block descriptions / printer / [expected] in Blocks.v, proofs in
+    StrLemmas.v, LineProofs.v, BlockProofs.v.
+
+    [fo] is Python's [float(text)] acceptance (trusted parameter).  A block description is a list
+    of items: a line of code ([Endo], [Lag] in the three notations, [IC], [Marker], [Exo],
+    [MaxTimeI], [TolI], [Junk]) with an optional trailing comment, a comment line, or a blank line,
+    each with arbitrary blank spacing.  [wf] is a boolean predicate: names are identifier-shaped,
+    do not contain the marker word (case-insensitively) and are not MaxTime / Err_Tolerance;
+    right-hand sides contain no '#', '=', newline or marker word, and, for simultaneous equations, no
+    lag notation; [Exo] lines stand after a marker; comments are ANY single-line text. *)
+From Coq Require Import List String Ascii Bool Arith ZArith.
+From SFC.Base Require Import Res Str.
+From SFC.Block Require Import Classify StrLemmas Blocks LineProofs BlockProofs.
+Import ListNotations.
+Local Open Scope string_scope.
+
+(** Every well-formed block parses without error to exactly what its description says:
+    simultaneous equations before the first marker in [Endogenous] (plus ("t","k") when no line
+    defines t or t_minus_1), lags in [Lagged] as (x, source), initial conditions in
+    [InitialConditions] under x, everything after the first marker in [Exogenous], the run
+    parameters in [MaxTime]/[Err_Tolerance], malformed lines only in the message — each
+    right-hand side being the printed one with surrounding blanks removed. *)
+Theorem C14_classify : forall fo b, wf fo b = true -> parse_block fo (print b) = Ok (expected b).
+Proof. exact classify_block. Qed.
+Print Assumptions C14_classify.
+
+(** Each equation item contributes exactly one entry to exactly one of the four classes, the
+    other items none; hence the four classes together hold one entry per equation line (plus the
+    default time variable).  [InitialConditions] is the dict built from the initial-condition
+    entries (a repeated name overwrites, as in Python). *)
+Theorem C14_exactly_one : forall fo b, wf fo b = true ->
+  (forall m it, is_equation it = true ->
+     List.length (endo_of m it) + List.length (lag_of m it) + List.length (ic_of m it) +
+     List.length (exo_of m it) = 1) /\
+  (forall m it, is_equation it = false ->
+     endo_of m it = [] /\ lag_of m it = [] /\ ic_of m it = [] /\ exo_of m it = []) /\
+  List.length (Endogenous (expected b)) + List.length (Lagged (expected b)) + List.length (ic_entries b) +
+  List.length (Exogenous (expected b)) = List.length (filter is_equation b) + List.length (default_t b) /\
+  InitialConditions (expected b) = dict_of (ic_entries b).
+Proof.
+  intros fo b H. split; [exact item_one_class|]. split; [exact item_no_class|].
+  split; [exact (class_count fo b H)|reflexivity].
+Qed.
+Print Assumptions C14_exactly_one.
+
+(** Trailing comments are inert: replacing them by ANY single-line texts (containing '=', '#',
+    digits, the marker word, lag or initial-condition notation, ...) changes nothing.  This needs much
+    less than [wf]: every code line is '#'-free, newline-free and not blank. *)
+Theorem C14_comments : forall fo cs b,
+  forallb code_ok b = true -> forallb comment_ok cs = true ->
+  parse_block fo (print (set_comments cs b)) = parse_block fo (print b).
+Proof. exact comments_inert. Qed.
+Print Assumptions C14_comments.
+
+Theorem C14_comments_wf : forall fo cs b,
+  wf fo b = true -> forallb comment_ok cs = true ->
+  parse_block fo (print (set_comments cs b)) = parse_block fo (print b).
+Proof. exact comments_inert_wf. Qed.
+Print Assumptions C14_comments_wf.
+
+(** The same fact for one arbitrary line of code in an arbitrary parser state. *)
+Theorem C14_comment_line : forall fo st code c1 c2,
+  contains_char "#"%char code = false -> String.eqb (strip code) "" = false ->
+  step fo st (code ++ print_comment c1) = step fo st (code ++ print_comment c2).
+Proof. exact comment_inert_line. Qed.
+Print Assumptions C14_comment_line.
+
+(** A time variable is supplied exactly when the user gives none. *)
+Theorem C14_default_t : forall fo b, wf fo b = true ->
+  exists e, parse_block fo (print b) = Ok e /\
+  (existsb defines_t b = false ->
+     Endogenous e = (flat_map (endo_of false) (before b) ++ [("t", "k")])%list /\
+     dict_get "t" (AllEquations e) = Some "k") /\
+  (existsb defines_t b = true ->
+     Endogenous e = flat_map (endo_of false) (before b) /\
+     AllEquations e = dict_of (flat_map alleq_of b)).
+Proof.
+  intros fo b H. exists (expected b). split; [exact (classify_block fo b H)|].
+  split; [exact (default_t_supplied b)|exact (default_t_not_supplied b)].
+Qed.
+Print Assumptions C14_default_t.
+
+(** Malformed lines are reported: the returned message contains the text of every junk line. *)
+Theorem C14_malformed_reported : forall fo b text c, wf fo b = true ->
+  List.In (Code (Junk text) c) b ->
+  exists e pre post, parse_block fo (print b) = Ok e /\ msg e = pre ++ strip text ++ post.
+Proof.
+  intros fo b text c H Hin. destruct (junk_reported b text c Hin) as [pre [post E]].
+  exists (expected b), pre, post. split; [exact (classify_block fo b H)|exact E].
+Qed.
+Print Assumptions C14_malformed_reported.
+
+(** Before fix D14 (marker test on the raw line) a comment changes the classification:
+    [x = y # this is exogenous] loses x and turns every later line into an exogenous one. *)
+Definition sp0 : spacing := mkSp "" " " " " "".
+Definition d14_block : list item := [Code (Endo "x" "y" sp0) None; Code (Endo "y" "2" sp0) None].
+Definition d14_comments : list (option string) := [Some " this is exogenous"].
+Definition no_float : string -> option bool := fun _ => None.
+
+Theorem C14_orig_refuted :
+  wf no_float d14_block = true /\ forallb comment_ok d14_comments = true /\
+  parse_block_orig no_float (print (set_comments d14_comments d14_block)) <>
+  parse_block_orig no_float (print d14_block) /\
+  parse_block_orig no_float (print (set_comments d14_comments d14_block)) =
+  Ok (mkParsed [("t", "k")] [] [("y", "2")] [] [("y", "2"); ("t", "k")] 0%Z "1e-8" "") /\
+  parse_block no_float (print (set_comments d14_comments d14_block)) =
+  Ok (mkParsed [("x", "y"); ("y", "2"); ("t", "k")] [] [] [] [("x", "y"); ("y", "2"); ("t", "k")] 0%Z "1e-8" "").
+Proof.
+  split; [vm_compute; reflexivity|]. split; [vm_compute; reflexivity|].
+  split; [vm_compute; discriminate|]. split; vm_compute; reflexivity.
+Qed.
+Print Assumptions C14_orig_refuted.
+
+(** Non-vacuity: a block with every kind of line, hostile comments and odd spacing is
+    well formed, and this is what it parses to. *)
+Definition sp1 : spacing := mkSp "  " "" (String "009"%char "") " ".
+Definition ex_fo : string -> option bool := fo_of_table [("1e-6", true)].
+Definition ex_block : list item :=
+  [ Code (Endo "GOV__F" "GOV__LAG_F +GOV__T -GOV__DEM_GOOD" sp0) (Some " [F] an exogenous = bonus # (0)");
+    Code (Lag "GOV__LAG_F" "GOV__F" FTok sp1) (Some " uses F(k-1)");
+    Code (Lag "L2" "x" FT sp0) None;
+    Code (IC "GOV__F" " 80." sp1) (Some "MaxTime = 7");
+    CommentLine " " " just a note with = and #";
+    Code (Junk "hello world") (Some " exogenous");
+    Code (Junk "a = b = c") None;
+    Blank "  ";
+    Code (MaxTimeI "1_00" sp0) (Some "Err_Tolerance = zzz");
+    CommentLine "" " Exogenous Variables";
+    Code (Exo "GOV__DEM_GOOD" "[0.,] + [20.,] * 105" sp0) (Some " (k-1)");
+    Code (Lag "after" "x" FK sp0) None;
+    Code (TolI "1e-6" sp1) None;
+    Code (Marker "exogenous = again") (Some "#") ].
+
+Example C14_example_wf : wf ex_fo ex_block = true.
+Proof. vm_compute. reflexivity. Qed.
+Print Assumptions C14_example_wf.
+
+Example C14_example_parse :
+  parse_block ex_fo (print ex_block) =
+  Ok (mkParsed [("GOV__F", "GOV__LAG_F +GOV__T -GOV__DEM_GOOD"); ("t", "k")]
+               [("GOV__LAG_F", "GOV__F"); ("L2", "x")]
+               [("GOV__DEM_GOOD", "[0.,] + [20.,] * 105"); ("after", "x(k-1)")]
+               [("GOV__F", "80.")]
+               [("GOV__F", "GOV__LAG_F +GOV__T -GOV__DEM_GOOD"); ("GOV__LAG_F", "GOV__F (k -1 )"); ("L2", "x(t-1)");
+                ("GOV__F(0)", "80."); ("MaxTime", "1_00"); ("GOV__DEM_GOOD", "[0.,] + [20.,] * 105");
+                ("after", "x(k-1)"); ("Err_Tolerance", "1e-6"); ("t", "k")]
+               100%Z "1e-6"
+               (msg_ignored "hello world" ++ msg_multiple "a = b = c")).
+Proof. vm_compute. reflexivity. Qed.
+Print Assumptions C14_example_parse.
